@@ -397,7 +397,85 @@ pub fn cases(_tier: &str) -> Vec<Value> {
         out.push(json!({"engine":"enet","check":"c06","kind":"key","variant":variant}));
     }
     out.push(json!({"engine":"enet","check":"c06","kind":"min-over-sections"}));
+    // the entry has expired (but no sweep has removed it yet) and the upstream FAILS when asked
+    // again: whatever the client is told, it is not the expired data
+    for ttl in [1u32, 2, 20] {
+        for past_ms in [1u64, 5_000] {
+            for mode in ["silent", "tc-then-close"] {
+                for tr in ["udp", "tcp"] {
+                    out.push(json!({"engine":"enet","check":"c06","kind":"stale-on-failure","ttl":ttl,"past_ms":past_ms,"mode":mode,"transport":tr}));
+                }
+            }
+        }
+    }
     out
+}
+
+/// ask once while the upstream fails: "silent" = it answers nothing at all; "tc-then-close" = it
+/// answers over UDP with an empty truncated reply and closes every TCP connection unanswered.
+/// Time is advanced second by second (at most 75 s) until the client has a reply.
+fn ask_failing(rig: &mut Rig, q: &Value, id: u16, mode: &str) -> Result<Option<rd::Msg>, String> {
+    let (_qm, qb) = crate::checks::c03::build_query(q, id);
+    let dst = rig.listen_addr(0);
+    let cip: std::net::IpAddr = "::1".parse().unwrap();
+    let tcp = q["transport"].as_str() == Some("tcp");
+    let mut uc = None;
+    let mut tc = None;
+    if tcp {
+        let mut c = crate::enet::TcpClient::connect(Some(cip), dst)?;
+        c.conn.send_frame(&qb)?;
+        tc = Some(c);
+    } else {
+        let c = crate::enet::UdpClient::new(cip)?;
+        c.send(dst, &qb)?;
+        uc = Some(c);
+    }
+    let mut closed = 0usize;
+    for s in 0..=75 {
+        if s > 0 {
+            rig.advance(Duration::from_secs(1));
+        }
+        for _ in 0..3 {
+            rig.pump(3);
+            rig.poll_upstreams();
+            let up = &mut rig.upstreams[0];
+            if mode == "tc-then-close" {
+                let new: Vec<(Vec<u8>, std::net::SocketAddr)> = up.udp_rx.iter().skip(up.udp_taken).cloned().collect();
+                for (b, src) in new {
+                    if let Ok((oq, _)) = rd::decode(&b) {
+                        let rep = rd::Msg { id: oq.id, flags: 0x8380, question: oq.question.clone(), answer: vec![], authority: vec![], additional: vec![] };
+                        let _ = up.udp_reply(src, &rd::encode(&rep, false));
+                    }
+                }
+                while closed < up.conns.len() {
+                    if !up.conns[closed].frames_in.is_empty() || up.conns[closed].eof {
+                        let _ = up.conns[closed].stream.shutdown(std::net::Shutdown::Both);
+                        up.conns[closed].eof = true;
+                        closed += 1;
+                    } else {
+                        break;
+                    }
+                }
+            }
+            up.udp_taken = up.udp_rx.len();
+        }
+        if let Some(c) = uc.as_mut() {
+            c.poll();
+            if let Some((b, _)) = c.rx.first() {
+                return Ok(rd::decode(b).ok().map(|x| x.0));
+            }
+        }
+        if let Some(c) = tc.as_mut() {
+            c.poll();
+            if let Some(b) = c.conn.frames_in.first() {
+                return Ok(rd::decode(b).ok().map(|x| x.0));
+            }
+            if c.conn.eof {
+                return Ok(None);
+            }
+        }
+    }
+    Ok(None)
 }
 
 /// ask once; returns (reply, upstream queries caused)
@@ -547,6 +625,31 @@ pub fn run_case(case: &Value) -> CaseResult {
                 }
             }
         }
+        Some("stale-on-failure") => {
+            let ttl = case["ttl"].as_u64().unwrap_or(1) as u32;
+            let q = json!({"name":"stale.example","type":1,"class":1,"edns":"plain","flags":"rd","transport":case["transport"]});
+            let r = json!({"rcode":0,"an":[0],"ns":[],"ar":[],"compress":true,"opt":true,"ttl_override":ttl});
+            let (a1, u1) = step!(&q, &r, 1);
+            if u1 != 1 || a1.is_none() {
+                res.violations.push(mk("first-query", format!("first query caused {u1} upstream queries / reply {:?}", a1.is_some())));
+            }
+            let past = Duration::from_secs(ttl as u64) + Duration::from_millis(case["past_ms"].as_u64().unwrap_or(1));
+            let already = rig.virt_elapsed;
+            if past > already {
+                rig.advance(past - already);
+            }
+            n += 1;
+            match ask_failing(&mut rig, &q, 2, case["mode"].as_str().unwrap_or("silent")) {
+                Err(e) => {
+                    let _ = rig.stop();
+                    return CaseResult::machinery(e);
+                }
+                Ok(Some(m)) if m.rcode() == 0 && !m.answer.is_empty() => {
+                    res.violations.push(mk("served-past-ttl", format!("{} ms after an answer with TTL {ttl} s was obtained, with the upstream failing ({}), the identical query was answered with that answer again (TTL {:?})", past.as_millis(), case["mode"].as_str().unwrap_or(""), m.answer.first().map(|r| r.ttl))));
+                }
+                Ok(_) => {}
+            }
+        }
         Some("key") => {
             let base = json!({"name":"key.example","type":1,"class":1,"edns":"plain","flags":"rd","transport":"tcp"});
             let r = json!({"rcode":0,"an":[0],"ns":[],"ar":[],"compress":true,"opt":true});
@@ -627,7 +730,7 @@ pub fn run(tier: &str, replay: Option<Value>) -> ! {
     rep.cov("traces_validated_against_impl", n + lq);
     rep.cov("evaluations", n + lq);
     rep.cov("distinct_nontrivial", classes.len() as u64 + agg.classes.len() as u64);
-    rep.cov("rule", "function: for response codes NOERROR, SERVFAIL, NXDOMAIN and REFUSED, TTL vectors over {0,1,2,59,60,61,2^31,2^32-1}: one section over all lists of length <=2, the other two over lists of length <=1 (thorough <=2), all three choices of the varied section; for each, the real calculate_expiry/insert/get_entry/expire under tokio's paused clock at elapsed {0, 0.999, 1, min-1, min-0.001, min, min+0.001, min+1} s x 7 probe keys, before and after an expire sweep; the same for negative answers (NODATA, NXDOMAIN) whose authority records are SOA records with MINIMUM in {0,1,30,59,60,61,3600,2^32-1} -- below, at and above their TTL; re-insertion histories: TTL l1 at t=0, TTL l2 (other record data) after a gap in {0, 1 ms, l1-1ms, l1, l1+1ms, l1+1s, l1+29s, l1+31s} with/without a sweep between, l1,l2 in {0,1,2,8,30,300} (thorough 9 values), looked up at 13 instants with/without sweep: every hit must be explained by one of the two insertions. live: TTL {0,1,2,60} x class {IN,CH} x UDP/TCP asked at +0, +1.5 s and just past expiry; key variants (type, DO, CD, name, class); minimum over sections. transitions = cache lookups + live queries");
+    rep.cov("rule", "function: for response codes NOERROR, SERVFAIL, NXDOMAIN and REFUSED, TTL vectors over {0,1,2,59,60,61,2^31,2^32-1}: one section over all lists of length <=2, the other two over lists of length <=1 (thorough <=2), all three choices of the varied section; for each, the real calculate_expiry/insert/get_entry/expire under tokio's paused clock at elapsed {0, 0.999, 1, min-1, min-0.001, min, min+0.001, min+1} s x 7 probe keys, before and after an expire sweep; the same for negative answers (NODATA, NXDOMAIN) whose authority records are SOA records with MINIMUM in {0,1,30,59,60,61,3600,2^32-1} -- below, at and above their TTL; re-insertion histories: TTL l1 at t=0, TTL l2 (other record data) after a gap in {0, 1 ms, l1-1ms, l1, l1+1ms, l1+1s, l1+29s, l1+31s} with/without a sweep between, l1,l2 in {0,1,2,8,30,300} (thorough 9 values), looked up at 13 instants with/without sweep: every hit must be explained by one of the two insertions. live: TTL {0,1,2,60} x class {IN,CH} x UDP/TCP asked at +0, +1.5 s and just past expiry; key variants (type, DO, CD, name, class); minimum over sections; stale-on-failure: TTL {1,2,20} x {1 ms, 5 s} past expiry x upstream {silent, truncated-then-closed} x UDP/TCP -- the expired answer must not come back. transitions = cache lookups + live queries");
     rep.cov("exhaustive", true);
     rep.cov("function_classes", json!(classes));
     rep.cov("live_classes", json!(agg.classes));
